@@ -84,7 +84,7 @@ def extract(unit_name, src_rel, cfg, roots, outdir, extra_flags=None):
         f.write(hdr + lw.emit_protos())
     with open(os.path.join(outdir, unit_name + '_bodies.c'), 'w') as f:
         f.write(hdr + '#include "common.h"\n#include "%s_types.h"\n#include "%s_protos.h"\n\n' % (unit_name, unit_name)
-                + lw.emit_bodies())
+                + cfg.get('bodies_prelude', '') + lw.emit_bodies())
     return lw
 
 
